@@ -62,7 +62,7 @@ class Step:
             except Exception as e:  # the call was refused
                 exc = e
         post = snapshot.snap(seq, self.with_calls)
-        return Ctx(w, history, op, pre, post, exc, seq, ret, [str(x.message) for x in wl], extra)
+        return Ctx(w, history, w.xlate(op), pre, post, exc, seq, ret, [str(x.message) for x in wl], extra)
 
 
 # ---- worker side -------------------------------------------------------------------------------
